@@ -218,6 +218,11 @@ func (ce *corrEngine) run(sc CScenario, slot int) {
 		return
 	}
 	defer g.release(cl)
+	// a stream of this cluster was reset just before this case (by the context end of the previous case): let its
+	// consequences (connection errors for requests written to the dying stream) pass before starting
+	for k := 0; k < 40 && g.recentReset(cl, 150*time.Millisecond); k++ {
+		time.Sleep(10 * time.Millisecond)
+	}
 	rcvErr0 := g.rcvErrs(cl)
 	stream := strings.HasPrefix(sc.Variant, "CorrStream")
 	token := h.NewToken()
